@@ -6,6 +6,22 @@ def E(name, src, model=None, quick=None, thorough=None, **kw):
     return d
 
 PROPS = {
+    "C12": dict(
+        lean_props=["H4.Props.C12"],
+        engines=[
+            E("dd", "e_dd.c", model="dd", quick=dict(cases=640, chunk=16, timeout=900), thorough=dict(cases=6400, seeds=4, chunk=32, timeout=1800)),
+        ],
+        trusted_base=["tbbt.c / dynarray.c (tag tree and per-tag ref array): not modelled, the model derives them from the DD blocks",
+                      "special-element layers (hblocks.c etc.): only the descriptor footprint of HLcreate is replayed"],
+        assumptions=["stdio stream = byte array; single-threaded; no malloc failure; file offsets stay below 2^31; the file is open with write access"],
+    ),
+    "C17": dict(
+        lean_props=["H4.Props.C17"],
+        engines=[E("crash", "e_crash.c", model=None, wrap=True, quick=dict(cases=60, chunk=4, timeout=1200), thorough=dict(cases=600, seeds=2, chunk=8, timeout=3000))],
+        trusted_base=["stdio interposition (harness/wrap.h): unbuffered stream, each library write is one physical write",
+                      "the write log of the Lean model (H4.DD.Wr) is placed by reading the C; the engine checks the implementation's log directly (L2: classification of writes, not their bytes)"],
+        assumptions=["each library-level write is atomic and ordered (stdio on one stream)"],
+    ),
     "C03": dict(
         lean_props=["H4.Props.C03"],
         engines=[
@@ -121,10 +137,4 @@ PROPS = {
 
 # merged but not yet claimed (waiting for the model to follow fix: commits in /repo); runnable with bin/check, not in MANIFEST
 PENDING = {
-    "C17": dict(
-        lean_props=[],
-        engines=[E("crash", "e_crash.c", model=None, wrap=True, quick=dict(cases=60, chunk=4, timeout=1200), thorough=dict(cases=600, seeds=2, chunk=8, timeout=3000))],
-        trusted_base=["stdio interposition (harness/wrap.h): unbuffered stream, each library write is one physical write"],
-        assumptions=["each library-level write is atomic and ordered (stdio on one stream)"],
-    ),
 }
